@@ -6,12 +6,13 @@
 #ifndef C04_BLOCK_PTRS
 #define C04_BLOCK_PTRS 16
 #endif
-#ifndef C04_BLOCKS
-#define C04_BLOCKS 3
-#endif
+#define C04_BLOCKS 6
 static char* c04_pool0[C04_BLOCK_PTRS];
 static char* c04_pool1[C04_BLOCK_PTRS];
 static char* c04_pool2[C04_BLOCK_PTRS];
+static char* c04_pool3[C04_BLOCK_PTRS];
+static char* c04_pool4[C04_BLOCK_PTRS];
+static char* c04_pool5[C04_BLOCK_PTRS];
 static unsigned c04_used;
 unsigned c04_news, c04_deletes;
 char* ext__Znwm(uint64_t n)
@@ -20,7 +21,7 @@ char* ext__Znwm(uint64_t n)
     __CPROVER_assert(c04_used < C04_BLOCKS, "C04 allocator stand-in: enough blocks");
     __CPROVER_assume(n <= sizeof(c04_pool0) && c04_used < C04_BLOCKS);
     unsigned k = c04_used++; c04_news++;
-    return k == 0 ? (char*)c04_pool0 : k == 1 ? (char*)c04_pool1 : (char*)c04_pool2;
+    return k == 0 ? (char*)c04_pool0 : k == 1 ? (char*)c04_pool1 : k == 2 ? (char*)c04_pool2 : k == 3 ? (char*)c04_pool3 : k == 4 ? (char*)c04_pool4 : (char*)c04_pool5;
 }
 void ext__ZdlPv(char* p) { c04_deletes++; }
 void ext__ZdlPvm(char* p, uint64_t n) { c04_deletes++; }
